@@ -433,3 +433,14 @@ func init() {
 	proxy.RegisterDialerType("sim", func(u *url.URL, fwd proxy.Dialer) (proxy.Dialer, error) { return plainDialer{}, nil })
 	proxy.RegisterDialerType("simctx", func(u *url.URL, fwd proxy.Dialer) (proxy.Dialer, error) { return ctxDialer{}, nil })
 }
+
+// DirectDialContext stands in for (*net.Dialer).DialContext in instrumented
+// code: the client's direct (non-proxy) dial reaches the same simulated
+// network as the registered proxy dialers.
+func DirectDialContext(dialer interface{}, ctx context.Context, network, address string) (net.Conn, error) {
+	f := getDial()
+	if f == nil {
+		return nil, errors.New("simnet: no dial function installed")
+	}
+	return f(ctx, network, address, true)
+}
